@@ -1,22 +1,32 @@
 """C04 -- implementation side: ONE cell of the matrix
-    op x blocking reason x termination event x order x deadline (x status already arrived x variant)
+    op x blocking reason x termination event x order x deadline (x status already arrived x variant ...)
 run on the real grpclib client objects on the virtual-time loop.  Nothing here knows the model.
 
+grpclib is driven through its public API (Channel.request / ServiceMethod.__call__, the Stream coroutines)
+and the wire (scripted h2 peer, in-memory transport).  The few internal observations (where a task is
+suspended, Wrapper error / membership, the processor's registry) are looked up BY ROLE (type / identity),
+inside try blocks, and degrade to 'unknown' -- which the comparison skips -- when the layout changes.
+
 A cell is a dict
-  op      : sr | sm | en | ri | rm | rt | ca | ax      (send_request, send_message, end, recv_initial_metadata,
-                                                        recv_message, recv_trailing_metadata, cancel, context exit)
+  op      : sr | sm | en | ri | rm | rt | ca | ax | cl   (send_request, send_message, end, recv_initial_metadata,
+            recv_message, recv_trailing_metadata, cancel, context exit, stub-style call = ServiceMethod.__call__
+            with one request message; `card` = UU | US | SU | SS picks the method class)
   reason  : paused | window | slot | silent            (state of the connection when the op runs; the peer is
                                                         silent in every cell)
   event   : rst | goaway | garbage | lost | close | serr
             (serr: a stream-level protocol violation by the peer that makes the client's h2 reset the stream
              ITSELF -- StreamReset(remote_reset=False); `violation` = window: two WINDOW_UPDATEs overflowing
-             the stream window | data: a stray DATA frame after the server's END_STREAM)
+             the stream window | data: a stray DATA frame after the server's END_STREAM;
+             garbage: a CONNECTION-level protocol error, `perr` = '<kind>@<target>' picks the frame and the
+             stream it is aimed at: own | other (another live call) | finished (a call that ended normally)
+             | zero | idle)
   order   : before | during                            (event before the op starts / while it is blocked)
   deadline: bool
-  status  : none | h503 | tonly7 | trailers5 | trailers0   (what the server had already sent for this call)
-  goaway  : '<error code>/<last_stream_id: zero | highest | lower | max>/<debug data 0|1>'  (event=goaway;
-            default '0/highest/0'; lower = below the in-flight stream of the call -- a finished warm-up call
-            has used stream 1 --, max = 2**31-1, the "shutdown notice" of a graceful shutdown)
+  status  : none | h503 | tonly7 | trailers5 | trailers0 | h200 | h200m   (what the server had sent for this
+            call; h200 = response headers only, h200m = headers and one message)
+  progress: bool -- the status is delivered WHILE the operation waits (it moves on to its next blocking
+            point) instead of before it starts; always so for op=cl
+  goaway  : '<error code>/<last_stream_id: zero | highest | lower | max>/<debug data 0|1>'  (event=goaway)
   rst_code: error code of the RST_STREAM (event=rst; default 8)
   variant : base | implicit | after_headers            (implicit: send_message opens the stream itself;
                                                         after_headers: initial metadata already received)
@@ -25,8 +35,12 @@ A cell is a dict
 import asyncio
 import struct
 
+from h2.events import RequestReceived
 from h2.settings import SettingCodes
 
+from grpclib import client as gclient
+from grpclib import protocol as gprotocol
+from grpclib import utils as gutils
 from grpclib.const import Cardinality
 from grpclib.exceptions import GRPCError, StreamTerminatedError
 
@@ -39,11 +53,51 @@ EVENTS = ['rst', 'goaway', 'garbage', 'lost', 'close', 'serr']
 ORDERS = ['before', 'during']
 STATUSES = ['none', 'h503', 'tonly7', 'trailers5', 'trailers0']
 OPNAME = {'sr': 'send_request', 'sm': 'send_message', 'en': 'end', 'ri': 'recv_initial_metadata',
-          'rm': 'recv_message', 'rt': 'recv_trailing_metadata', 'ca': 'cancel', 'ax': 'context exit'}
+          'rm': 'recv_message', 'rt': 'recv_trailing_metadata', 'ca': 'cancel', 'ax': 'context exit',
+          'cl': 'stub call'}
 DEADLINE = 64.0          # seconds (dyadic); far beyond the 'prompt' window
 PROMPT_SPAN = 1.0
-# a frame h2 must refuse: CONTINUATION (type 9) without a preceding HEADERS
-GARBAGE = b'\x00\x00\x04\x09\x00\x00\x00\x00\x01abcd'
+PATH = '/v.S/M'
+
+# Connection-level protocol errors: (kind, target) pairs for which h2 4.3.0 raises out of receive_data and
+# moves its connection state machine to CLOSED (measured; `own` falls back to `idle` when the call has no
+# stream yet).
+PERR = ['continuation@own', 'continuation@other', 'continuation@finished', 'continuation@zero',
+        'settings-push2@zero', 'settings-window-huge@zero', 'settings-bad-length@zero',
+        'settings-on-stream@own', 'data-stream0@zero', 'data@idle', 'oversized@own', 'oversized@finished',
+        'bad-padding@own', 'bad-padding@other', 'window-overflow@zero', 'window-zero@own',
+        'window-zero@finished', 'window-zero@zero', 'rst@zero', 'rst-bad-length@own', 'ping-bad-length@zero',
+        'ping-on-stream@other', 'goaway-on-stream@own', 'push-promise@finished', 'push-promise@idle',
+        'priority-self@own', 'priority-self@finished', 'bad-hpack@own', 'bad-hpack@finished',
+        'headers@finished', 'headers@zero', 'headers@idle']
+
+
+def perr_bytes(peer, kind, sid):
+    fb = P.frame_bytes
+    if kind == 'headers':
+        # a (late / misplaced) HEADERS frame with END_STREAM, e.g. duplicate trailers
+        return fb(0x1, 0x5, sid, peer.h2.encoder.encode([('grpc-status', '0')]))
+    return {
+        'continuation': lambda: fb(0x9, 0, sid, b'abcd'),                   # CONTINUATION without HEADERS
+        'settings-push2': lambda: fb(0x4, 0, 0, struct.pack('>HI', 2, 2)),
+        'settings-window-huge': lambda: fb(0x4, 0, 0, struct.pack('>HI', 4, 0x80000000)),
+        'settings-bad-length': lambda: fb(0x4, 0, 0, b'abc'),
+        'settings-on-stream': lambda: fb(0x4, 0, sid, b''),
+        'data-stream0': lambda: fb(0x0, 0, 0, b'abc'),
+        'data': lambda: P.data_frame(sid, b'late'),
+        'oversized': lambda: fb(0x0, 0, sid, b'x' * 16385),
+        'bad-padding': lambda: fb(0x0, 0x8, sid, bytes([200]) + b'ab'),
+        'window-overflow': lambda: fb(0x8, 0, sid, struct.pack('>I', 0x7fffffff)) * 2,
+        'window-zero': lambda: fb(0x8, 0, sid, struct.pack('>I', 0)),
+        'rst': lambda: fb(0x3, 0, sid, struct.pack('>I', 8)),
+        'rst-bad-length': lambda: fb(0x3, 0, sid, b'ab'),
+        'ping-bad-length': lambda: fb(0x6, 0, 0, b'abcd'),
+        'ping-on-stream': lambda: fb(0x6, 0, sid, b'12345678'),
+        'goaway-on-stream': lambda: fb(0x7, 0, sid, struct.pack('>II', 0, 0)),
+        'push-promise': lambda: fb(0x5, 0x4, sid, struct.pack('>I', 2) + b'\x82'),
+        'priority-self': lambda: fb(0x2, 0, sid, struct.pack('>IB', sid, 1)),
+        'bad-hpack': lambda: fb(0x1, 0x4, sid, b'\xff\xff\xff\xff\xff'),
+    }[kind]()
 
 
 def stream_violation(peer, sid, kind):
@@ -53,6 +107,56 @@ def stream_violation(peer, sid, kind):
     else:
         wu = P.frame_bytes(0x8, 0, sid, struct.pack('>I', 0x7fffffff))
         peer.raw(wu + wu)                                  # stream window above 2^31-1
+
+
+# ---- internal observations, by role -----------------------------------------------------------------------
+
+def _by_type(obj, cls):
+    try:
+        for v in vars(obj).values():
+            if isinstance(v, cls):
+                return v
+    except TypeError:
+        pass
+    return None
+
+
+def wrapper_of(stream):
+    return _by_type(stream, gutils.Wrapper)
+
+
+def wrapper_error(stream):
+    """class of the error the call's wrapper holds: 'ok' (none) | class | 'unknown'"""
+    try:
+        w = wrapper_of(stream)
+        if w is None:
+            return 'unknown'
+        errs = [v for v in vars(w).values() if isinstance(v, BaseException)]
+        return err_class(errs[0]) if errs else 'ok'
+    except Exception:
+        return 'unknown'
+
+
+def is_member(stream, task):
+    try:
+        w = wrapper_of(stream)
+        return any(isinstance(v, (set, frozenset, list, dict)) and task in v for v in vars(w).values())
+    except Exception:
+        return 'unknown'
+
+
+def registered(stream, proto):
+    """is the call's protocol stream in the processor's registry (True / False / 'unknown')"""
+    try:
+        ps = _by_type(stream, gprotocol.Stream)
+        if ps is None:
+            return False
+        regs = [v for v in vars(proto.processor).values() if isinstance(v, dict)]
+        if not regs:
+            return 'unknown'
+        return any(v is ps for reg in regs for v in reg.values())
+    except Exception:
+        return 'unknown'
 
 
 def _chain(coro):
@@ -68,37 +172,32 @@ def _chain(coro):
 
 
 def blocked_on(task, proto):
-    """(event, site): the asyncio primitive the task is suspended on --
-    write_ready | stream_slot | window | headers | trailers | buffer | gate | other -- and the name of
-    the grpclib function that awaits it (send_request, send_data, end, reset, recv_headers,
-    recv_trailers, read, ...), both read from the chain of awaiting frames."""
-    frames, names = [], []
-    for c in _chain(task.get_coro()):
-        fr = getattr(c, 'cr_frame', None) or getattr(c, 'gi_frame', None)
-        code = getattr(c, 'cr_code', None) or getattr(c, 'gi_code', None)
-        frames.append(fr)
-        names.append(code.co_name if code else '?')
-    me = frames[-1].f_locals.get('self') if frames and frames[-1] is not None else None
-    site = names[-2] if len(names) >= 2 else '?'
-    conn = proto.connection if proto is not None else None
-    if isinstance(me, asyncio.Event):
-        if conn is not None and me is conn.write_ready:
-            return 'write_ready', site
-        if conn is not None and me is conn.stream_close_waiter:
-            return 'stream_slot', site
+    """the asyncio primitive the task is suspended on, by identity with the public synchronisation objects
+    of the connection / stream:  write_ready | stream_slot | window | headers | trailers | buffer | gate |
+    unknown"""
+    try:
+        frames = []
+        for c in _chain(task.get_coro()):
+            frames.append(getattr(c, 'cr_frame', None) or getattr(c, 'gi_frame', None))
+        me = frames[-1].f_locals.get('self') if frames and frames[-1] is not None else None
+        if isinstance(me, asyncio.Queue):
+            return 'buffer'
+        if not isinstance(me, asyncio.Event):
+            return 'unknown'
+        conn = proto.connection if proto is not None else None
+        for name, label in (('write_ready', 'write_ready'), ('stream_close_waiter', 'stream_slot')):
+            if conn is not None and getattr(conn, name, None) is me:
+                return label
         for fr in frames:
             s = fr.f_locals.get('self') if fr is not None else None
-            if s is not None and hasattr(s, 'window_updated') and hasattr(s, 'headers_received'):
-                if me is s.window_updated:
-                    return 'window', site
-                if me is s.headers_received:
-                    return 'headers', site
-                if me is s.trailers_received:
-                    return 'trailers', site
-        return 'gate', site
-    if isinstance(me, asyncio.Queue):
-        return 'buffer', site
-    return 'other', site
+            if isinstance(s, gprotocol.Stream):
+                for name, label in (('window_updated', 'window'), ('headers_received', 'headers'),
+                                    ('trailers_received', 'trailers')):
+                    if getattr(s, name, None) is me:
+                        return label
+        return 'gate'
+    except Exception:
+        return 'unknown'
 
 
 def err_class(e):
@@ -116,17 +215,34 @@ def err_class(e):
     return exc_name(e)
 
 
+def outcome_class(o):
+    return ('pending' if o[0] == 'pending' else 'ok' if o[0] == 'ok' else
+            'Cancelled' if o[0] == 'cancelled' else err_class(o[1]))
+
+
 def send_status(peer, sid, status, headers_sent=False):
     if headers_sent:
-        # the response headers (200) are out already: only trailers can follow
-        peer.headers(sid, [('grpc-status', status[8:]), ('grpc-message', 'm')], end_stream=True)
+        # the response headers (200) are out already: only a message / trailers can follow
+        if status == 'h200m':
+            peer.data(sid, P.grpc_frame(b'reply'))
+        elif status.startswith('trailers'):
+            peer.headers(sid, [('grpc-status', status[8:]), ('grpc-message', 'm')], end_stream=True)
     elif status == 'h503':
         peer.headers(sid, [(':status', '503'), ('content-type', 'application/grpc')])
+    elif status == 'h200':
+        peer.headers(sid, P.RESP_HEADERS)
+    elif status == 'h200m':
+        peer.headers(sid, P.RESP_HEADERS)
+        peer.data(sid, P.grpc_frame(b'reply'))
     elif status.startswith('tonly'):
         peer.headers(sid, P.RESP_HEADERS + [('grpc-status', status[5:])], end_stream=True)
     elif status.startswith('trailers'):
         peer.headers(sid, P.RESP_HEADERS)
         peer.headers(sid, [('grpc-status', status[8:]), ('grpc-message', 'm')], end_stream=True)
+
+
+def server_ended(status):
+    return status.startswith('tonly') or status.startswith('trailers')
 
 
 def send_goaway(peer, spec, sid):
@@ -138,16 +254,48 @@ def send_goaway(peer, spec, sid):
     peer.flush()
 
 
-def warm_up(loop, ce):
-    """a finished call, so that the next stream id is 3 and a GOAWAY can name a lower one"""
+def sid_of(peer, path):
+    """the HTTP/2 stream the peer has seen for a call (its :path), or None"""
+    for e in reversed(peer.events):
+        if isinstance(e, RequestReceived) and dict(e.headers).get(':path') == path:
+            return e.stream_id
+    return None
+
+
+def warm_up(loop, ce, how):
+    """a finished call before the one under test: 'reset' -- ended by the client's RST_STREAM (so that the
+    next stream id is 3 and a GOAWAY can name a lower one); 'normal' -- END_STREAM in both directions"""
+    path = '/v.S/W' + how
+
     async def w():
-        s = ce.channel.request('/v.S/W', Cardinality.STREAM_STREAM, bytes, bytes)
+        s = ce.channel.request(path, Cardinality.STREAM_STREAM, bytes, bytes)
         async with s:
-            await s.send_request()
-            await s.cancel()
+            if how == 'reset':
+                await s.send_request()
+                await s.cancel()
+            else:
+                await s.send_request(end=True)
+                await s.recv_initial_metadata()
     t = loop.create_task(w())
     loop.run_quiet(1.0)
-    return t.done()
+    if how == 'normal' and not t.done():
+        ce.peer.headers(sid_of(ce.peer, path), P.RESP_HEADERS + [('grpc-status', '0')], end_stream=True)
+        loop.run_quiet(1.0)
+    return t.done(), sid_of(ce.peer, path)
+
+
+def h2_is_closed(proto):
+    """did the client's h2 give the connection up (True / False / None = cannot tell)"""
+    try:
+        from h2.connection import H2Connection, ConnectionState
+        h = _by_type(proto.connection, H2Connection)
+        return h.state_machine.state is ConnectionState.CLOSED
+    except Exception:
+        return None
+
+
+METHODS = {'UU': gclient.UnaryUnaryMethod, 'US': gclient.UnaryStreamMethod,
+           'SU': gclient.StreamUnaryMethod, 'SS': gclient.StreamStreamMethod}
 
 
 def run_cell(cell):
@@ -155,6 +303,8 @@ def run_cell(cell):
     op, reason, event, order = cell['op'], cell['reason'], cell['event'], cell['order']
     deadline, status = cell['deadline'], cell.get('status', 'none')
     variant, holder_mode = cell.get('variant', 'base'), cell.get('holder', 'idle')
+    progress = bool(cell.get('progress')) or op == 'cl'
+    perr = cell.get('perr', 'continuation@own')
     obs = {'setup': 'ok'}
     with vloop.session() as loop:
         ce = wire.ClientEnd(loop)
@@ -163,20 +313,35 @@ def run_cell(cell):
         hold = asyncio.Event()
         hdr_gate = asyncio.Event()
         kw = {'timeout': DEADLINE} if deadline else {}
-        stream = ce.channel.request('/v.S/M', Cardinality.STREAM_STREAM, bytes, bytes, **kw)
+        box = {}                 # 'stream': the client Stream of the call under test
+        if op == 'cl':
+            # the stub builds the Stream itself: note it on its way out of the public Channel.request
+            orig_request = ce.channel.request
+
+            def request(name, *a, **k):
+                s = orig_request(name, *a, **k)
+                if name == PATH:
+                    box['stream'] = s
+                return s
+            ce.channel.request = request
+            method = METHODS[cell.get('card', 'UU')](ce.channel, PATH, bytes, bytes)
+        else:
+            box['stream'] = ce.channel.request(PATH, Cardinality.STREAM_STREAM, bytes, bytes, **kw)
         need_headers = (op == 'rt') or variant == 'after_headers'
-        opens_in_op = op == 'sr' or (op == 'sm' and variant == 'implicit')
+        opens_in_op = op in ('sr', 'cl') or (op == 'sm' and variant == 'implicit')
+        client_ends = op in ('rt', 'ax', 'cl')
 
         async def prelude():
             if opens_in_op:
                 # the connection exists (the reason is a state of it) but the call has no stream yet
                 return
-            await stream.send_request(end=op in ('rt', 'ax'))
+            await box['stream'].send_request(end=op in ('rt', 'ax'))
             if need_headers:
                 await hdr_gate.wait()
-                await stream.recv_initial_metadata()
+                await box['stream'].recv_initial_metadata()
 
         async def the_op():
+            stream = box['stream']
             if op == 'sr':
                 await stream.send_request()
             elif op == 'sm':
@@ -194,7 +359,12 @@ def run_cell(cell):
             # 'ax': the operation is leaving the context
 
         async def call():
-            async with stream:
+            if op == 'cl':
+                await gate.wait()
+                rec['started'] = loop.time()
+                msg = b'q' * 10 if cell.get('card', 'UU')[0] == 'U' else [b'q' * 10]
+                return await method(msg, **kw)
+            async with box['stream']:
                 await prelude()
                 rec['prelude'] = True
                 await gate.wait()
@@ -209,12 +379,12 @@ def run_cell(cell):
                     rec['op'] = 'ok'
                     rec['op_t'] = loop.time()
 
-        async def holder():
-            hs = ce.channel.request('/v.S/H', Cardinality.STREAM_STREAM, bytes, bytes)
+        async def live(path, mode):
+            hs = ce.channel.request(path, Cardinality.STREAM_STREAM, bytes, bytes)
             async with hs:
                 await hs.send_request()
-                rec['holder_sid'] = hs._stream.id
-                if holder_mode == 'blocked':
+                rec[path] = True
+                if mode == 'blocked':
                     await hs.recv_message()
                 else:
                     await hold.wait()
@@ -226,10 +396,20 @@ def run_cell(cell):
             obs['setup'] = 'connect-stuck'
             return obs
         proto = ce.proto
+        finished_sid = other_sid = None
         if event == 'goaway' and '/lower/' in (cell.get('goaway') or ''):
-            if not warm_up(loop, ce):
+            if not warm_up(loop, ce, 'reset')[0]:
                 obs['setup'] = 'warm-up-stuck'
                 return obs
+        if event == 'garbage' and perr.endswith('@finished'):
+            ok, finished_sid = warm_up(loop, ce, 'normal')
+            if not ok:
+                obs['setup'] = 'warm-up-stuck'
+                return obs
+        if event == 'garbage' and perr.endswith('@other') and reason != 'slot':
+            loop.create_task(live('/v.S/O', 'idle'))
+            loop.run_quiet(1.0)
+            other_sid = sid_of(ce.peer, '/v.S/O')
         if reason == 'slot' and opens_in_op:
             ce.peer.settings({SettingCodes.MAX_CONCURRENT_STREAMS: 1})
         if reason == 'window':
@@ -239,31 +419,34 @@ def run_cell(cell):
         done_at = {}
         task.add_done_callback(lambda t: done_at.setdefault('t', loop.time()))
         loop.run_quiet(1.0)
-        if need_headers and 'prelude' not in rec:
-            ce.peer.headers(stream._stream.id, P.RESP_HEADERS)
-            hdr_gate.set()
-            loop.run_quiet(1.0)
-        if 'prelude' not in rec:
-            obs['setup'] = 'prelude-stuck'
-            return obs
-        sid = stream._stream.id if stream._send_request_done else None
+        if op != 'cl':
+            if need_headers and 'prelude' not in rec:
+                ce.peer.headers(sid_of(ce.peer, PATH), P.RESP_HEADERS)
+                hdr_gate.set()
+                loop.run_quiet(1.0)
+            if 'prelude' not in rec:
+                obs['setup'] = 'prelude-stuck'
+                return obs
+        sid = sid_of(ce.peer, PATH)
         if reason == 'slot':
-            ht = loop.create_task(holder())             # noqa: F841  (kept alive by the loop)
+            loop.create_task(live('/v.S/H', holder_mode))
             loop.run_quiet(1.0)
-            if 'holder_sid' not in rec:
+            if '/v.S/H' not in rec:
                 obs['setup'] = 'holder-stuck'
                 return obs
+            if other_sid is None:
+                other_sid = sid_of(ce.peer, '/v.S/H')
             if not opens_in_op:
                 # the call under test has its stream already: the limit is reached with both open
                 ce.peer.settings({SettingCodes.MAX_CONCURRENT_STREAMS: 2})
                 loop.run_quiet(1.0)
         if reason == 'paused':
             ce.transport.pause()
-        if status != 'none':
+        if status != 'none' and not progress:
             if sid is None:
                 obs['setup'] = 'no-stream-for-status'
                 return obs
-            if need_headers and not status.startswith('trailers'):
+            if need_headers and (status == 'h503' or status.startswith('tonly')):
                 obs['setup'] = 'status-infeasible'      # the 200 headers are out already
                 return obs
             send_status(ce.peer, sid, status, headers_sent=need_headers)
@@ -271,8 +454,8 @@ def run_cell(cell):
 
         def fire():
             """None when the event happened, else why it cannot"""
+            s = sid_of(ce.peer, PATH)
             if event == 'rst':
-                s = stream._stream.id if stream._send_request_done else None
                 if s is None:
                     return 'no-stream-for-rst'
                 try:
@@ -280,42 +463,44 @@ def run_cell(cell):
                 except Exception:
                     return 'rst-infeasible'          # both sides ended the stream: the peer's h2 refuses
             elif event == 'serr':
-                s = stream._stream.id if stream._send_request_done else None
                 if s is None:
                     return 'no-stream-for-rst'
-                if stream._end_done and (status.startswith('tonly') or status.startswith('trailers')):
+                if client_ends and server_ended(status):
                     return 'rst-infeasible'          # closed on both sides: h2 ignores frames for it
                 stream_violation(ce.peer, s, cell.get('violation', 'window'))
             elif event == 'goaway':
-                send_goaway(ce.peer, cell.get('goaway'), stream._stream.id if stream._send_request_done else None)
+                send_goaway(ce.peer, cell.get('goaway'), s)
             elif event == 'garbage':
-                ce.peer.raw(GARBAGE)
+                kind, target = perr.split('@')
+                tsid = {'own': s, 'other': other_sid, 'finished': finished_sid, 'zero': 0,
+                        'idle': 1001}[target]
+                if tsid is None:
+                    tsid = 1001                      # the call has no stream yet: an idle one
+                ce.peer.raw(perr_bytes(ce.peer, kind, tsid))
+                if h2_is_closed(proto) is False:
+                    return 'perr-not-an-error'       # h2 did not treat it as a connection error
             elif event == 'lost':
                 ce.transport.lose()
             elif event == 'close':
                 ce.channel.close()
             return None
 
-        def registered_now():
-            s_now = getattr(getattr(stream, '_stream', None), 'id', None)
-            return bool(s_now is not None and proto.processor.streams.get(s_now) is
-                        getattr(stream, '_stream', None))
-
         if order == 'before':
-            obs['registered'] = registered_now()
+            obs['registered'] = registered(box['stream'], proto) if 'stream' in box else False
             why = fire()
             if why:
                 obs['setup'] = why
                 return obs
             loop.run_quiet(PROMPT_SPAN)
-            obs['werr'] = err_class(stream._wrapper._error)
+            obs['werr'] = wrapper_error(box['stream']) if 'stream' in box else 'ok'
             connects0 = ce.connects
             t_ev = loop.time()
             gate.set()
             q = loop.run_quiet(PROMPT_SPAN)
             obs['blocked'] = 'no'
-            obs['site'] = 'no'
-            if sid is None and event not in ('rst', 'serr') and rec.get('op') == 'ok' and ce.connects == connects0 + 1:
+            obs['opening'] = False
+            if sid is None and event not in ('rst', 'serr') and ce.connects == connects0 + 1 and (
+                    rec.get('op') == 'ok' or (op == 'cl' and sid_of(ce.peer, PATH) is not None)):
                 # the call had not touched the lost connection: its send_request opened a new one
                 obs['setup'] = 'call-unaffected'
                 hold.set()
@@ -323,44 +508,52 @@ def run_cell(cell):
         else:
             gate.set()
             loop.run_quiet(PROMPT_SPAN)
+            if status != 'none' and progress and not task.done() and 'op' not in rec:
+                # the server answers partially WHILE the operation waits
+                s = sid_of(ce.peer, PATH)
+                if s is None:
+                    obs['setup'] = 'no-stream-for-status'
+                    return obs
+                if need_headers and (status == 'h503' or status.startswith('tonly')):
+                    obs['setup'] = 'status-infeasible'
+                    return obs
+                send_status(ce.peer, s, status, headers_sent=need_headers)
+                loop.run_quiet(PROMPT_SPAN)
             if task.done() or 'op' in rec:
                 obs['blocked'] = 'no'
-                obs['site'] = 'no'
                 obs['setup'] = 'op-not-blocked'
-                o = vloop.outcome(task)
-                obs['op'] = rec.get('op') if op != 'ax' else (
-                    'ok' if o[0] == 'ok' else err_class(o[1]) if o[0] == 'exc' else 'Cancelled')
+                obs['op'] = rec.get('op') if op not in ('ax', 'cl') else outcome_class(vloop.outcome(task))
                 return obs
-            obs['blocked'], obs['site'] = blocked_on(task, proto)
-            obs['member'] = task in stream._wrapper._tasks
-            obs['registered'] = registered_now()
+            stream = box.get('stream')
+            obs['blocked'] = blocked_on(task, proto)
+            obs['member'] = is_member(stream, task) if stream is not None else False
+            obs['registered'] = registered(stream, proto) if stream is not None else False
+            obs['opening'] = sid_of(ce.peer, PATH) is None
             t_ev = loop.time()
             why = fire()
             if why:
                 obs['setup'] = why
                 return obs
             q = loop.run_quiet(PROMPT_SPAN)
-            obs['werr'] = err_class(stream._wrapper._error)
+            obs['werr'] = wrapper_error(stream) if stream is not None else 'ok'
         obs['quiet'] = q
-        o = vloop.outcome(task)
-        ctx = ('pending' if o[0] == 'pending' else 'ok' if o[0] == 'ok' else
-               'Cancelled' if o[0] == 'cancelled' else err_class(o[1]))
+        ctx = outcome_class(vloop.outcome(task))
         obs['ctx'] = ctx
-        obs['op'] = ctx if op == 'ax' else rec.get('op', 'pending')
-        t_done = rec.get('op_t') if op != 'ax' else done_at.get('t')
+        whole = op in ('ax', 'cl')
+        obs['op'] = ctx if whole else rec.get('op', 'pending')
+        t_done = done_at.get('t') if whole else rec.get('op_t')
         obs['prompt'] = bool(t_done is not None and t_done == t_ev)
         if obs['op'] == 'pending':
-            obs['stuck_on'], obs['stuck_site'] = blocked_on(task, proto)
+            obs['stuck_on'] = blocked_on(task, proto)
+            obs['opening'] = sid_of(ce.peer, PATH) is None
             # does anything ever end it?  (a deadline does; nothing else)
             loop.run_quiet(4 * DEADLINE)
-            o2 = vloop.outcome(task)
-            if op != 'ax':
+            if whole:
+                obs['late'] = outcome_class(vloop.outcome(task))
+                t_late = done_at.get('t')
+            else:
                 obs['late'] = rec.get('op', 'pending')
                 t_late = rec.get('op_t')
-            else:
-                obs['late'] = ('pending' if o2[0] == 'pending' else 'ok' if o2[0] == 'ok' else
-                               err_class(o2[1]) if o2[0] == 'exc' else 'Cancelled')
-                t_late = done_at.get('t')
             obs['late_after'] = None if t_late is None else t_late - t_ev
         hold.set()
         loop.run_quiet(0.5)
@@ -383,7 +576,7 @@ def run_multi(spec):
     with vloop.session() as loop:
         ce = wire.ClientEnd(loop)
         kw = {'timeout': DEADLINE} if spec['deadline'] else {}
-        stream = ce.channel.request('/v.S/M', Cardinality.STREAM_STREAM, bytes, bytes, **kw)
+        stream = ce.channel.request(PATH, Cardinality.STREAM_STREAM, bytes, bytes, **kw)
         go_after = asyncio.Event()
         go_ops = asyncio.Event()
         fin = asyncio.Event()
@@ -409,15 +602,20 @@ def run_multi(spec):
 
         loop.create_task(ce.channel.__connect__())
         loop.run_quiet(1.0)
+        finished_sid = None
         if ev_is_lower_goaway(spec):
-            warm_up(loop, ce)
+            warm_up(loop, ce, 'reset')
+        perr = spec.get('perr', 'continuation@own')
+        if spec['event'] == 'garbage' and perr.endswith('@finished'):
+            finished_sid = warm_up(loop, ce, 'normal')[1]
         if spec.get('window'):
             ce.peer.settings({SettingCodes.INITIAL_WINDOW_SIZE: 0})
             loop.run_quiet(1.0)
         task = loop.create_task(call())
         loop.run_quiet(1.0)
+        sid = sid_of(ce.peer, PATH)
         if spec.get('headers') and 'ready' not in tasks:
-            ce.peer.headers(stream._stream.id, P.RESP_HEADERS)
+            ce.peer.headers(sid, P.RESP_HEADERS)
             loop.run_quiet(1.0)
         if 'ready' not in tasks:
             out['setup'] = 'prelude-stuck'
@@ -431,37 +629,34 @@ def run_multi(spec):
         ev = spec['event']
         if ev == 'rst':
             try:
-                ce.peer.reset(stream._stream.id, spec.get('rst_code', 8))
+                ce.peer.reset(sid, spec.get('rst_code', 8))
             except Exception:
                 out['setup'] = 'rst-infeasible'
                 return out
         elif ev == 'serr':
-            stream_violation(ce.peer, stream._stream.id, 'window')
+            stream_violation(ce.peer, sid, 'window')
         elif ev == 'goaway':
-            send_goaway(ce.peer, spec.get('goaway'), stream._stream.id)
+            send_goaway(ce.peer, spec.get('goaway'), sid)
         elif ev == 'garbage':
-            ce.peer.raw(GARBAGE)
+            kind, target = perr.split('@')
+            tsid = {'own': sid, 'other': 1001, 'finished': finished_sid, 'zero': 0, 'idle': 1001}[target]
+            ce.peer.raw(perr_bytes(ce.peer, kind, tsid if tsid is not None else 1001))
+            if h2_is_closed(ce.proto) is False:
+                out['setup'] = 'perr-not-an-error'
+                return out
         elif ev == 'lost':
             ce.transport.lose()
         else:
             ce.channel.close()
         loop.run_quiet(PROMPT_SPAN)
         for o, t, was_pending in zip(spec['ops'], tasks['during'], pend):
-            oc = vloop.outcome(t)
-            out['during'].append({'op': o, 'blocked': was_pending,
-                                  'res': 'pending' if oc[0] == 'pending' else 'ok' if oc[0] == 'ok' else
-                                  'Cancelled' if oc[0] == 'cancelled' else err_class(oc[1])})
+            out['during'].append({'op': o, 'blocked': was_pending, 'res': outcome_class(vloop.outcome(t))})
         go_after.set()
         loop.run_quiet(PROMPT_SPAN)
         for o, t in zip(spec['after'], tasks.get('after', [])):
-            oc = vloop.outcome(t)
-            out['after'].append({'op': o,
-                                 'res': 'pending' if oc[0] == 'pending' else 'ok' if oc[0] == 'ok' else
-                                 'Cancelled' if oc[0] == 'cancelled' else err_class(oc[1])})
+            out['after'].append({'op': o, 'res': outcome_class(vloop.outcome(t))})
         out['clock_advanced'] = loop.time() != t_ev
         fin.set()
         loop.run_quiet(PROMPT_SPAN)
-        oc = vloop.outcome(task)
-        out['ctx'] = ('pending' if oc[0] == 'pending' else 'ok' if oc[0] == 'ok' else
-                      'Cancelled' if oc[0] == 'cancelled' else err_class(oc[1]))
+        out['ctx'] = outcome_class(vloop.outcome(task))
     return out
